@@ -94,6 +94,13 @@ pub fn value_cases() -> Vec<(String, Doc)> {
         v.push((format!("array:{et}[][2]"), one_member(&format!("{et}[][2]"), J::Arr(vec![arr(3, 1), arr(0, 0)]), ex.clone())));
         v.push((format!("array:{et}[3][]"), one_member(&format!("{et}[3][]"), J::Arr(vec![arr(3, 2)]), ex.clone())));
     }
+    for n in [255u64, 256, 257, 1000] { v.push((format!("array:uint8[]:large"), one_member("uint8[]", J::Arr((0..n).map(|k| J::Num((k % 256).to_string())).collect()), vec![]))); v.push(("array:string[]:large".into(), one_member("string[]", J::Arr((0..n).map(|k| J::Str(format!("s{k}"))).collect()), vec![]))); }
+    for n in [135usize, 136, 137, 271, 272, 273] { v.push(("string:keccak-rate-boundary".into(), one_member("string", J::Str("x".repeat(n)), vec![]))); }
+    for (depth, width) in [(6usize, 2usize), (12, 2), (24, 2), (40, 2), (12, 3)] {
+        let mut types = Vec::new();
+        for k in 0..depth { let ms: Vec<(String, String)> = (0..width).map(|j| (format!("m{j}"), if k + 1 < depth { format!("L{}[]", k + 1) } else { "uint8[]".to_string() })).collect(); types.push((format!("L{k}"), ms)); }
+        v.push(("dependency-ladder".into(), simple_doc(types, "L0", J::Obj((0..width).map(|j| (format!("m{j}"), J::Arr(vec![]))).collect()))));
+    }
     // nested structs, member order, empty struct, members of the same struct type in several places
     let nested = simple_doc(vec![("Outer".into(), sv(&[("z", "Inner"), ("a", "Inner[]"), ("n", "uint8"), ("e", "Empty")])), ("Inner".into(), sv(&[("q", "bytes2"), ("deep", "Deep")])), ("Deep".into(), sv(&[("s", "string")])), ("Empty".into(), vec![])], "Outer",
         J::obj(vec![("n", J::n("9")), ("e", J::Obj(vec![])), ("a", J::Arr(vec![J::obj(vec![("deep", J::obj(vec![("s", J::s("x"))])), ("q", J::s("0x0102"))])])), ("z", J::obj(vec![("q", J::s("0xffff")), ("deep", J::obj(vec![("s", J::s(""))]))]))]));
